@@ -127,7 +127,7 @@ class Check:
                 print("  " + what[:400], flush=True)
         return path
 
-    def finish(self):
+    def finish(self, name=None):
         for key, (n, what) in sorted(self.known_hits.items()):
             print("KNOWN-FINDING: property=%s %s [%s] (%d cases)" % (self.prop, what, key, n), flush=True)
         wall = time.time() - self.t0
@@ -150,7 +150,7 @@ class Check:
         tmp = os.path.join(EVIDENCE, ".%s.json.tmp" % self.prop)
         with open(tmp, "w") as f:
             json.dump(ev, f, indent=1, default=str)
-        os.replace(tmp, os.path.join(EVIDENCE, "%s.json" % self.prop))
+        os.replace(tmp, os.path.join(EVIDENCE, "%s.json" % (name or self.prop)))
         status = "VIOLATIONS=%d" % len(self.violations) if self.violations else "held"
         print("%s %s tier=%s seed=%d states=%d replayed/validated=%d wall=%.1fs" % (
             self.prop, status, self.tier, seed(), cov["states"],
